@@ -196,6 +196,39 @@ def run(ctx: core.Ctx):
                 inc = ys_[-1] > ys_[0]
                 if any((b <= a) if inc else (b >= a) for a, b in zip(zs_, zs_[1:])):
                     ctx.violation("Discrete.tsukamoto/declared-monotonic/order", {"k": "Discrete", "table": name, "height": h}, "monotone in the direction of the term", zs_)
+    # the same for every other term object the library has - wrappers included: it either does not declare itself monotonic and
+    # refuses, or it declares itself monotonic and then owes the inverse relation on (0, height)
+    others = {"Activated(Ramp)/Minimum": fl.Activated(fl.Ramp("r", 0.0, 1.0), 0.5, fl.Minimum()),
+              "Activated(Ramp)/AlgebraicProduct": fl.Activated(fl.Ramp("r", 0.0, 1.0), 0.5, fl.AlgebraicProduct()),
+              "Activated(Sigmoid)/AlgebraicProduct": fl.Activated(fl.Sigmoid("s", 0.5, 4.0), 0.25, fl.AlgebraicProduct()),
+              "Activated(Triangle)/Minimum": fl.Activated(fl.Triangle("t", 0.0, 0.5, 1.0), 0.5, fl.Minimum()),
+              "Aggregated(Ramp)": fl.Aggregated("a", 0.0, 1.0, fl.Maximum(), [fl.Activated(fl.Ramp("r", 0.0, 1.0), 0.5, fl.Minimum())]),
+              "Constant": fl.Constant("c", 0.5), "Linear": fl.Linear("l", [1.0, 0.5]), "Function": fl.Function("f", "x")}
+    for name, t in others.items():
+        ctx.count()
+        try:
+            mono = bool(t.is_monotonic())
+        except Exception:
+            mono = False
+        h_ = float(getattr(t, "height", 1.0))
+        if not mono:
+            try:
+                r = t.tsukamoto(0.5 * h_)
+                ctx.violation(f"{name.split('(')[0].split('/')[0]}.tsukamoto/refusal", {"k": name}, "an exception (the term does not declare itself monotonic)", repr(r))
+            except Exception:
+                pass
+            continue
+        for f in (0.125, 0.25, 0.5, 0.75, 0.875):
+            y = f * h_
+            try:
+                z = float(np.asarray(t.tsukamoto(y), dtype=float))
+                m = float(np.asarray(t.membership(z), dtype=float))
+            except Exception as ex:
+                ctx.violation(f"{name.split('(')[0]}.tsukamoto/declared-monotonic/raises", {"k": name, "y": y}, "a finite z with membership(z) = y", f"{type(ex).__name__}: {ex}")
+                break
+            if not math.isfinite(z) or abs(m - y) > 1e-9:
+                ctx.violation(f"{name.split('(')[0]}.tsukamoto/declared-monotonic/inverse", {"k": name, "y": y}, y, [z, m], note=f"{name} declares itself monotonic: z({y}) = {z}, membership(z) = {m}")
+                break
     ctx.exhaustive = True
     ctx.rule = ("TLC enumerates 6 monotonic kinds x all parameter pairs of the two palettes (both directions) x 3 heights x 13 fractions of the height; "
                 "the driver adds y next to 0, h/2 (both neighbours) and h; distinct = (term, y) pairs, all non-trivial (0 < y < h)")
